@@ -48,6 +48,13 @@ func genesis3s() *sim.Genesis {
 	return g
 }
 
+// genesis3R: genesis3 plus a holder R rich enough for amounts at the limits of the power arithmetic (2^60, 2^63, 2^64 RIGO).
+func genesis3R() *sim.Genesis {
+	g := genesis3()
+	g.Holders["R"] = "2^250"
+	return g
+}
+
 func genesisByName(n string) *sim.Genesis {
 	switch n {
 	case "g3s":
